@@ -143,3 +143,23 @@ def retry_function(gen, name, seeds=(1, 2, 3)):
         if vr.get("verified", 0) >= 1 and vr.get("errors", 1) == 0 and not vr.get("encountered-vir-error"):
             return True
     return False
+
+
+def probe_hits_isolated(gen, fn_name):
+    """re-run one function of a probe twin in isolation (larger rlimit) and return the lines of its failed assertions"""
+    cmd = ["verus", os.path.basename(gen), "--verify-root", "--verify-function", fn_name, "--error-format=json",
+           "--multiple-errors", "50", "--rlimit", "60"]
+    p = subprocess.run(cmd, cwd=WORK, stdout=subprocess.PIPE, stderr=subprocess.PIPE, text=True)
+    hits = set()
+    for ln in p.stderr.split("\n"):
+        ln = ln.strip()
+        if ln.startswith("{"):
+            try:
+                d = json.loads(ln)
+            except ValueError:
+                continue
+            if d.get("level") == "error" and "assertion failed" in d.get("message", ""):
+                for sp in d.get("spans", []):
+                    if sp.get("is_primary"):
+                        hits.add(sp.get("line_start"))
+    return hits
